@@ -41,7 +41,7 @@ theorem miRows_ne_nil {n c t : Nat} {X : Arr3 α} (hX : Rect3 n c t X) (hn : 0 <
   simp at this; omega
 
 /-- C8 (names in sorted order): `from_long_to_nested` on the long table of `X` gives the nested
-frame (Series cells) holding `X`, labelled with the default names or the names supplied -/
+frame (Series cells) holding `X`, labelled with the identifiers or the names supplied -/
 theorem fromLongToNested_sorted_ok [DecidableEq ν] (ops : NameOps ν) {n c t : Nat} {X : Arr3 α}
     (hX : Rect3 n c t X) (hn : 0 < n) (hc : 0 < c) (ht : 0 < t) (names : List ν)
     (hl : names.length = c) (hnn : names.Nodup)
@@ -50,7 +50,7 @@ theorem fromLongToNested_sorted_ok [DecidableEq ν] (ops : NameOps ν) {n c t : 
     fromLongToNested ops ⟨li, ltm, ld, longRowsM names X⟩ li ltm ld (some names') =
       .ok (nestedOf names' false X) ∧
     fromLongToNested ops ⟨li, ltm, ld, longRowsM names X⟩ li ltm ld none =
-      .ok (nestedOf (defaultNames ops c) false X) := by
+      .ok (nestedOf names false X) := by
   have hents : (longRowsM names X).map (fun r => (((r.1, r.2.1), r.2.2.1), r.2.2.2))
       = melt names (miRows X) := by
     unfold longRowsM
@@ -88,8 +88,7 @@ theorem fromLongToNested_sorted_ok [DecidableEq ν] (ops : NameOps ν) {n c t : 
     simp only [hmem, and_self, not_true_eq_false, if_false, if_true, bind, Except.bind, pure,
       Except.pure, hpiv]
     unfold miOf at hmn
-    simp only [hmn, hclen]
-    rw [renamed_nestedOf hX hn names (defaultNames ops c) hl false]
+    simp only [hmn]
 
 /-! ### arbitrary (distinct) names: the variables come back in sorted-name order -/
 
@@ -221,8 +220,8 @@ theorem totalLE_keyLe : TotalLE keyLe := by
     exact Prod.ext this.1 this.2
 
 /-- C8: `from_long_to_nested` on the long table of `X` under any distinct names gives the nested
-frame (Series cells) holding the panel with its variables in sorted-name order, labelled with the
-default names or the names supplied -/
+frame (Series cells) holding the panel with its variables in sorted-name order, labelled with
+their identifiers (every name with its own data) or with the names supplied -/
 theorem fromLongToNested_ok [DecidableEq ν] (ops : NameOps ν)
     (hnle : TotalLE (fun a b : ν => !ops.lt b a)) {n c t : Nat} {X : Arr3 α}
     (hX : Rect3 n c t X) (hn : 0 < n) (hc : 0 < c) (ht : 0 < t) (names : List ν)
@@ -232,7 +231,7 @@ theorem fromLongToNested_ok [DecidableEq ν] (ops : NameOps ν)
       fromLongToNested ops ⟨li, ltm, ld, longRowsM names X⟩ li ltm ld (some names') =
         .ok (nestedOf names' false (sortVarsPanel ops.lt names X))) ∧
     fromLongToNested ops ⟨li, ltm, ld, longRowsM names X⟩ li ltm ld none =
-      .ok (nestedOf (defaultNames ops c) false (sortVarsPanel ops.lt names X)) := by
+      .ok (nestedOf (sortVarsNames ops.lt names X) false (sortVarsPanel ops.lt names X)) := by
   have hpiv := pivot_longRowsM ops.lt hnle totalLE_keyLe hX hn hc ht names hl hnn
   have hX' := rect_sortVarsPanel ops.lt hX hn names hl
   have hperm := sortVarsNames_perm ops.lt hX hn names hl
@@ -256,8 +255,7 @@ theorem fromLongToNested_ok [DecidableEq ν] (ops : NameOps ν)
     simp only [hmem, and_self, not_true_eq_false, if_false, if_true, bind, Except.bind, pure,
       Except.pure, hpiv]
     unfold miOf at hmn
-    simp only [hmn, hclen]
-    rw [renamed_nestedOf hX' hn _ (defaultNames ops c) hl2 false]
+    simp only [hmn]
 
 /-- when the names are already in sorted order nothing is rearranged -/
 theorem sortVars_of_sorted (lt : ν → ν → Bool) {n c t : Nat} {X : Arr3 α} (hX : Rect3 n c t X)
